@@ -319,15 +319,30 @@ def harness_stamp():
 
 
 def build_harness(profile='release', timeout=1200):
-    """Rebuild the harness against /repo's current working tree with hooks enabled."""
+    """Rebuild the harness against the repo's current working tree with hooks enabled.
+    With VERIF_REPO set to another checkout (scratch worktree for mutation experiments) a copy of the
+    harness crate with the path dependency rewritten is built under .work/."""
+    import shutil
+    hdir = HARNESS
+    if os.path.realpath(REPO) != '/repo':
+        hdir = os.path.join(WORK, 'harness-alt')
+        os.makedirs(hdir, exist_ok=True)
+        for item in ('src', '.cargo'):
+            dst = os.path.join(hdir, item)
+            if os.path.exists(dst):
+                shutil.rmtree(dst)
+            shutil.copytree(os.path.join(HARNESS, item), dst)
+        shutil.copy(os.path.join(HARNESS, 'Cargo.lock'), os.path.join(hdir, 'Cargo.lock'))
+        toml = open(os.path.join(HARNESS, 'Cargo.toml')).read().replace('path = "/repo"', 'path = "%s"' % os.path.realpath(REPO))
+        write_if_changed(os.path.join(hdir, 'Cargo.toml'), toml)
     flags = '--cfg %s' % GUARD
     cmd = 'cargo build --offline %s' % ('--release' if profile == 'release' else '')
-    env = {'RUSTFLAGS': flags, 'CARGO_TARGET_DIR': os.path.join(HARNESS, 'target')}
+    env = {'RUSTFLAGS': flags, 'CARGO_TARGET_DIR': os.path.join(hdir, 'target')}
     if profile != 'release':
         env['RUSTFLAGS'] = flags + ' -C overflow-checks=on -C debug-assertions=on'
-        env['CARGO_TARGET_DIR'] = os.path.join(HARNESS, 'target-debug')
+        env['CARGO_TARGET_DIR'] = os.path.join(hdir, 'target-debug')
     with Lock('cargo-' + profile):
-        rc, out, dt = sh(cmd, cwd=HARNESS, env=env, timeout=timeout)
+        rc, out, dt = sh(cmd, cwd=hdir, env=env, timeout=timeout)
     binp = os.path.join(env['CARGO_TARGET_DIR'], 'release' if profile == 'release' else 'debug', 'vh')
     return rc, out, binp, dt
 
